@@ -29,7 +29,7 @@ func init() {
 		ID:    "C06",
 		Level: "exploration",
 		Rule: "case = one generated valid module graph (3..12 modules, see harness/gen/modgraph_b.go; 3% of params values are the name of another module). Hashes of ALL modules are taken from manifest.NewModuleHashes().HashModule and cross-checked against exec.NewOutputModuleGraph(out).ModuleHashes().Get for every module as output. " +
-			"(1) determinism: recomputed with fresh objects, in reverse module order, on a proto.Clone and on a marshal/unmarshal round trip; every worker process also hashes the same 5 seed-derived reference graphs and the parent asserts that all processes (and itself) produced the same (graph, module, hash) set. " +
+			"(1) determinism: hashed concurrently with three other graphs from eight goroutines, recomputed with fresh objects, in reverse module order, on a proto.Clone and on a marshal/unmarshal round trip; every worker process also hashes the same 5 seed-derived reference graphs and the parent asserts that all processes (and itself) produced the same (graph, module, hash) set. " +
 			"(2) every module x every single-field mutation that keeps the graph valid {binary content (module gets its own new binary), binary type, entrypoint, kind, initial block, input added (source/map/store/params), each input removed, inputs reordered (all adjacent swaps + one random swap), params value, source type, block-filter module, block-filter query, block filter added/removed}: " +
 			"the set of modules whose hash changed must equal {m} U descendants(m), descendants by the harness's own reachability over inputs and block filters (the set is the same in the original and in the mutated graph because only m's own fields change). " +
 			"(3) identity-preserving transformations leave every hash unchanged: consistent rename (fresh names or a permutation of the existing names), unrelated modules inserted, binaries permuted / re-indexed, import under an alias through manifest.NewReader (spkg written to disk + importing YAML manifest, optionally with a 'use' module). " +
@@ -43,7 +43,7 @@ func init() {
 		},
 		Cases: func(tier, mode string) int {
 			if tier == "thorough" {
-				return 2000
+				return 10000
 			}
 			return 60
 		},
@@ -203,6 +203,9 @@ func run(c *fw.Case) {
 		report(c, "C06/hash-error-on-valid-graph/"+fw.NormalizeMsg(err.Error()), "hashing a valid graph failed: "+err.Error(), w.base())
 		return
 	}
+
+	concurrentDeterminism(c, w, mods, base)
+	quotedWhitespace(c, w, mods)
 
 	// ---- (1) determinism inside the process
 	round := &pbsubstreams.Modules{}
